@@ -2,6 +2,7 @@
 import json, sys
 pid = sys.argv[1]
 extra = sys.argv[2] if len(sys.argv) > 2 else ""
+variation = sys.argv[3] if len(sys.argv) > 3 else ""
 for l in open('/verif/properties.jsonl'):
     p = json.loads(l)
     if p['id'] == pid:
@@ -19,7 +20,7 @@ Quantified: {p['quantifier']['text']}.
 
 REQUIREMENTS
 1. The change must look like a realistic mistake a maintainer could make (refactoring slip, off-by-one, wrong comparison operator, two statements reordered, a check dropped or weakened, wrong variable, stale cache), not sabotage, and must be small (a few lines, in one or two places).
-2. It must need something SPECIFIC to manifest — a particular interleaving of tasks, a crash or fault at a particular point, a multi-step sequence of operations, an unusual input or boundary value, or two cooperating sites that each look fine alone. It must NOT be something ordinary use or the existing tests expose at once.
+{variation}2. It must need something SPECIFIC to manifest — a particular interleaving of tasks, a crash or fault at a particular point, a multi-step sequence of operations, an unusual input or boundary value, or two cooperating sites that each look fine alone. It must NOT be something ordinary use or the existing tests expose at once.
 3. The existing test suite must still pass with the change: `cd {wt}/node && cargo nextest run --workspace --no-fail-fast --test-threads 8 --offline` (known baseline: `zksync_consensus_executor::tests::test_validator_rotation` fails even on the unchanged tree — ignore that one; every other test must pass). The whole suite takes roughly 6-10 minutes; while iterating you may run only the tests of the crates you touched (`-p <crate>`), but run the full suite once at the end and report the result. Some tests are randomized; if a test fails, check whether it also fails without your change before blaming it.
 4. Write a demonstration: a new test (`#[test]` / `#[tokio::test]`, e.g. appended to the affected crate's existing `tests` module or in a new test file inside the crate so that it can use crate-internal APIs) or a small program that FAILS with your change applied and PASSES on the unchanged code. Verify both directions yourself (use `git stash` or `git apply -R` on the source change only).
 5. Deliver into {out}/ :
